@@ -15,6 +15,80 @@ def short(kw):
         d["rplan"] = "%d x %s" % (len(rp), rp[0]) if rp else "whole"
     return d
 
+def gen_multinode_case(r, big=False):
+    """(nodes bs ops): honest seekable nodes; seeks mostly inside the archive, some outside; node borders,
+    empty nodes and the last byte of a node are favoured"""
+    n = r.choice([1, 1, 2, 2, 3, 3, 4, 5, 6]) if not big else r.randrange(20, 60)
+    nodes = [bytes(r.randrange(256) for _ in range(r.choice([0, 0, 1, 2, 3, 5, 8, 13, 40, 100]))) for _ in range(n)]
+    total = sum(len(x) for x in nodes)
+    borders = [0]
+    for x in nodes:
+        borders.append(borders[-1] + len(x))
+    bs = r.choice([1, 2, 3, 4, 7, 16, 100, 4096])
+    ops = []
+    pos = None   # unknown after a read
+    for _ in range(r.randrange(1, 16)):
+        x = r.random()
+        if x < 0.45:
+            ops.append([0])
+        else:
+            wh = r.choice([0, 0, 0, 1, 2, 2, 3])
+            if wh == 3:
+                ops.append([2, 0, 77]); continue
+            t = r.choice(borders + [max(0, b - 1) for b in borders] + [r.randrange(0, total + 1)] * 3)
+            if r.random() < 0.12:
+                t = r.choice([-1, -3, total + 1, total + 5, -total - 2])
+            if wh == 0:
+                ops.append([2, t, 0])
+            elif wh == 2:
+                ops.append([2, t - total, 2])
+            else:
+                ops.append([2, r.randrange(-total - 1, total + 2), 1])
+    return vfmt([nodes, bs, ops])
+
+def multinode_oracle(case_line, impl_line):
+    """C05 on the implementation's output alone: what is delivered depends only on the concatenation of the
+    nodes.  Judged up to the first refused seek (the stream position is unspecified afterwards)."""
+    try:
+        nodes, bs, ops = vparse(case_line)
+        outs = vparse(impl_line)
+    except Exception:
+        return ("C05:multinode:unparsable", "unparsable harness output")
+    flat = b"".join(nodes)
+    a = 0
+    if len(outs) != len(ops):
+        return ("C05:multinode:script-not-run", "the reader did not run the script (%d of %d operations)" % (len(outs), len(ops)))
+    for k, (op, o) in enumerate(zip(ops, outs)):
+        if op[0] == 0:
+            b, p = o[1], o[2]
+            if b != flat[a:a + len(b)] or p != a + len(b) or (len(b) == 0 and a < len(flat)):
+                return ("C05:multinode:read-depends-on-split",
+                        "op %d: read at stream offset %d returned %r (position %d); the concatenated stream has %r there" %
+                        (k, a, b[:16], p, flat[a:a + max(1, len(b))][:16]))
+            a = p
+        else:
+            off, wh = op[1], op[2]
+            t = off if wh == 0 else a + off if wh == 1 else len(flat) + off if wh == 2 else None
+            if t is None or t < 0 or t > len(flat):
+                if o[1] >= 0:
+                    return ("C05:multinode:bad-seek-accepted", "op %d: seek to %s (whence %d) outside the %d-byte stream returned %d" % (k, t, wh, len(flat), o[1]))
+                return None
+            if o[1] != t or o[2] != t:
+                return ("C05:multinode:seek-depends-on-split",
+                        "op %d: seek to offset %d (whence %d) of a %d-byte stream split as %s returned %d, position %d" %
+                        (k, t, wh, len(flat), [len(x) for x in nodes], o[1], o[2]))
+            a = t
+    return None
+
+def multinode(rep, r, quick):
+    runner = vlib.build_runner("multiNode")
+    exe = vlib.compile_harness("multiNode", "asan", private=True)
+    n = 1500 if quick else 60000
+    cases = [gen_multinode_case(r) for _ in range(n)] + [gen_multinode_case(r, big=True) for _ in range(20 if quick else 600)]
+    # the same stream under different splits: the oracle must accept both, and seek+read-to-end must agree
+    st = vlib.correspond(rep, "multiNode", runner, exe, vlib.load_corpus("C05-multinode") + cases, oracle=multinode_oracle)
+    return st
+
 def run(rep):
     pr = vlib.proof_part(rep, "C05", translators=["gen_defines"])
     runner = vlib.build_runner("readCore")
@@ -65,6 +139,9 @@ def run(rep):
                                    cmd="harness readCore on both case lines"), found_input=True)
                 break
 
+    # ---- Corr-1b: multi-volume layer (data nodes, dataset table, seek across nodes)
+    mn_stats = multinode(rep, r, quick)
+
     # ---- Corr-2: whole archives under partitions and sources
     readall = vlib.compile_harness("readAll", "asan")
     mk = vlib.compile_harness("mkArchive", "asan")
@@ -94,12 +171,11 @@ def run(rep):
         for cls, kw in variants:
             rcases.append(readcore.read_case(arc, **kw))
             meta.append((name, cls, kw))
-    rc, lines, err = readcore.run_readall(readall, rcases, timeout=1500)
-    if rc != 0 or len(lines) != len(rcases):
-        k = min(len(lines), len(rcases) - 1)
+    lines, failures = readcore.run_readall_sharded(readall, rcases, timeout=900 if quick else 2400)
+    for k, rc, err in failures[:8]:
         rep.violation("crash:readAll:" + vlib.crash_key(err),
                       "reader harness stopped (rc=%s) on archive %s variant %s %s: %s" % (rc, meta[k][0], meta[k][1], short(meta[k][2]), vlib.crash_key(err)),
-                      dict(case=rcases[k][:2000], stderr=err[-3000:], archive=meta[k][0]), found_input=True)
+                      dict(case=rcases[k][:200000], stderr=err[-3000:], archive=meta[k][0]), found_input=True)
     base = {}
     ncmp = nclean = 0
     for (name, cls, kw), c, l in zip(meta, rcases, lines):
@@ -121,19 +197,23 @@ def run(rep):
                           dict(archive=name, variant_a=str(bkw), variant_b=str(kw), digest_a=str(bd)[:1500], digest_b=str(d)[:1500],
                                case_a=bc[:4000], case_b=c[:4000], cmd="harness readAll on both case lines"), found_input=True)
     rep.coverage.update(
-        evaluations=len(cases) + len(rcases),
+        evaluations=len(cases) + len(rcases) + mn_stats["cases"],
         distinct_nontrivial=len(set(cases)) + len(set(rcases)),
         rule="Corr-1: %d (data, script, capability) groups x 10 read-callback partitions (1,2,3,7,511,512,513, random, whole) through the real "
              "__archive_read_ahead/consume/seek via a pseudo-format, compared with the extracted model and with each other; "
+             "Corr-1b: %d multi-node scripts (1-6 and 20-60 nodes incl. empty ones, block sizes 1..4096, seeks at node borders, last bytes, outside the stream) "
+             "through the real __archive_read_seek/ahead over appended callback data vs the extracted model, and the split-independence oracle on the real output; "
              "Corr-2: %d archives (real writers x formats/filters + suite reference archives) x sources {open_memory, callbacks with partitions, "
              "open_filename, open_fd file/pipe, open_FILE, open_filenames split} grouped by capability class; every case is distinct and non-trivial "
-             "(non-empty script or archive)" % (ngroups, len(arcs)),
+             "(non-empty script or archive)" % (ngroups, mn_stats["cases"], len(arcs)),
         samples=[cases[1][:300], str(meta[3])],
-        traces_validated_against_impl=st["agree"], correspondence=st,
+        traces_validated_against_impl=st["agree"] + mn_stats["agree"], correspondence=st, correspondence_multinode=mn_stats,
         archive_variants_compared=ncmp, archives=len(arcs), archives_reading_cleanly=nclean,
         partition_groups=len(groups), partition_groups_differing=ngdiff)
     rep.assumptions += ["the format readers' own parsing is not modelled; their partition independence is checked differentially (Corr-2), not proved",
-                        "multi-node data sets are exercised only through open_filenames (not modelled)"]
+                        "multi-node data sets: the dataset table, the node switches and the three seek cases are modelled (IO/MultiNodeDefs.v, honest seekable "
+                        "nodes, one block per read); multi-node skipping (advance_file_pointer across nodes) and failing node callbacks are exercised only "
+                        "through open_filenames in Corr-2"]
     vlib.proof_verdict(rep, "C05", pr)
 
 def replay(rep, path):
